@@ -81,6 +81,8 @@ class ExcAnalysis:
         self.unresolved_calls: List[Tuple[FuncInfo, ast.AST, str]] = []
         self.entry_fqs: Set[str] = set()
         self.assumed_well_typed: List[Tuple[FuncInfo, ast.AST, str]] = []
+        # False: values of unknown static type are NOT assumed to pass type validators (untrusted input, C15)
+        self.trust_untyped = True
         self._param_nonempty_cache: Dict[Tuple[str, str], bool] = {}
 
     # -- class lattice ------------------------------------------------------------------------------
@@ -1071,6 +1073,14 @@ class ExcAnalysis:
                 if t[0] in ('any', 'union') or t[0] == want:
                     return MAYBE
                 return res(NO)
+            if isinstance(name, tuple) and name[0] == 'elements-isinstance':
+                if t[0] in ('list', 'set'):
+                    et = strip_opt(t[1])
+                    if et == ANY or et[0] == 'any':
+                        return MAYBE
+                    sub = A.subtype(et, name[1])
+                    return res(YES if sub is True else NO if sub is False else MAYBE)
+                return MAYBE
             if name == 'hasattr-iter':
                 if t[0] in ('list', 'set', 'dict', 'tuple', 'str'):
                     return res(YES)
@@ -1343,6 +1353,12 @@ class ExcAnalysis:
             binding = self._bind(fn, callee, cnode, kind)
         not_none = {a[1] for a in cr.atoms if a[0] == 'none' and a[2] is False}
         remaining = []
+        # A validator applied to every ELEMENT of the function's own parameter / field (`for x in self.f: check(x)`) is a
+        # precondition on the callers' argument: it must not be refuted by the element type of the annotation either.
+        elem_atoms = self._element_atoms(fn, cr, binding)
+        if elem_atoms is not None:
+            own = self._atoms(fn, [(c, p) for c, p in self.abs.facts_at(cnode) if self._atom(fn, c, p) is not None]) or []
+            return CondRaise(cr.exc, elem_atoms + own, fn, cr.origin, [chain_head] + cr.chain)
         # A validator that checks the function's own parameter / field must not be refuted by that parameter's
         # annotation: such atoms are deferred to the callers (unless fn has no caller in the package: then the
         # annotation is the stated precondition of the entry point).
@@ -1385,7 +1401,45 @@ class ExcAnalysis:
                                if self._atom(fn, c, p) is not None]) or []
         return CondRaise(cr.exc, translated + own, fn, cr.origin, [chain_head] + cr.chain)
 
+    def _element_atoms(self, fn: FuncInfo, cr: CondRaise, binding) -> Optional[List[tuple]]:
+        """When every atom of cr is an isinstance test on an argument that is the loop variable of an enclosing
+        `for x in <own place>` (fn's parameter, or a field in __init__/__post_init__): the atoms re-expressed as
+        ('pred', ('elements-isinstance', T), <own place>, pol).  None otherwise."""
+        if fn.fq in self.entry_fqs or not any(k in ('call', 'add', 'iadd') for _c, _n, k in self.cg.callers(fn)):
+            return None
+        out = []
+        for atom in cr.atoms:
+            if atom[0] == 'none' and atom[2] is False:
+                continue            # "and the value is not None": dropping it only widens the condition of the raise
+            if atom[0] != 'isinstance':
+                return None
+            b = binding.get(atom[1])
+            if b is None or b[0] is not fn or not isinstance(b[1], ast.Name):
+                return None
+            loop = None
+            p_ = self.prog.parent(b[2]) if b[2] is not None else None
+            while p_ is not None and p_ is not fn.node:
+                if isinstance(p_, ast.For) and isinstance(p_.target, ast.Name) and p_.target.id == b[1].id:
+                    loop = p_
+                    break
+                p_ = self.prog.parent(p_)
+            if loop is None:
+                return None
+            base = self._place(fn, loop.iter)
+            if base is None or (base[0] == 'self' and fn.name not in ('__post_init__', '__init__')):
+                return None
+            tt = atom[2]
+            if tt and tt[0] == 'param':
+                tb = binding.get(tt)
+                tt = self.abs.resolve_type_expr(tb[0], tb[1]) if tb and tb[1] is not None else None
+            if tt is None:
+                return None
+            out.append(('pred', ('elements-isinstance', tt), base, atom[3]))
+        return out or None
+
     def _undecided_for_lack_of_type(self, atom: tuple, binding) -> bool:
+        if not self.trust_untyped:
+            return False
         if atom[0] == 'or':
             return all(self._undecided_for_lack_of_type(a, binding) for a in atom[1])
         if atom[0] not in ('isinstance', 'pred', 'none'):
@@ -1453,6 +1507,9 @@ class ExcAnalysis:
             tt = atom[2]
             tn = tt[1].split('.')[-1] if tt and tt[0] == 'cls' else str(tt)
             return f'`{arg}` is {"" if pol else "not "}an instance of {tn}'
+        if atom[0] == 'pred' and isinstance(atom[1], tuple):
+            tn = atom[1][1][1].split('.')[-1] if atom[1][1] and atom[1][1][0] == 'cls' else str(atom[1][1])
+            return f'every element of `{arg}` is {"" if pol else "not "}an instance of {tn}'
         if atom[0] == 'pred':
             return f'{atom[1]}(`{arg}`) is {pol}'
         if atom[0] == 'enumeq':
